@@ -36,6 +36,7 @@ def dispatch (op : String) (payload : Json) : R Json :=
   | "cross_resolve" => C08.handle payload
   | "results_project" => C14.handle payload
   | "pipeline2" => Pipeline2.handle payload
+  | "project" => Project.handle payload
   | _ => .error s!"unknown op {op}"
 
 partial def loop (h : IO.FS.Stream) (out : IO.FS.Stream) : IO Unit := do
